@@ -178,8 +178,13 @@ fn sig_hash(s: &str) -> String {
 
 /// Runs a trace in a fresh process and returns the slot creation map of the run (empty on death).
 fn replay_slot_origin(path: &Path, timeout: Duration) -> Vec<usize> {
+    replay_result(path, timeout).map(|r| r.slot_origin).unwrap_or_default()
+}
+
+/// Runs a trace in a fresh process and returns its full result (None if the process died).
+fn replay_result(path: &Path, timeout: Duration) -> Option<RunResult> {
     let out = Command::new(exe()).arg("replay").arg(path).stdout(Stdio::piped()).stderr(Stdio::null()).spawn();
-    let Ok(mut child) = out else { return vec![] };
+    let Ok(mut child) = out else { return None };
     let start = Instant::now();
     loop {
         match child.try_wait() {
@@ -188,11 +193,11 @@ fn replay_slot_origin(path: &Path, timeout: Duration) -> Vec<usize> {
                 if start.elapsed() > timeout {
                     let _ = child.kill();
                     let _ = child.wait();
-                    return vec![];
+                    return None;
                 }
                 std::thread::sleep(Duration::from_millis(2));
             }
-            Err(_) => return vec![],
+            Err(_) => return None,
         }
     }
     let mut text = String::new();
@@ -203,11 +208,11 @@ fn replay_slot_origin(path: &Path, timeout: Duration) -> Vec<usize> {
     for l in text.lines() {
         if let Some(s) = l.strip_prefix("END ") {
             if let Ok(r) = serde_json::from_str::<RunResult>(s) {
-                return r.slot_origin;
+                return Some(r);
             }
         }
     }
-    vec![]
+    None
 }
 
 /// Runs a trace file in a fresh process. Returns (signature of violation / death class, outcome hash).
@@ -692,8 +697,18 @@ pub fn check(prop: &str, tier: &str, extra: &[String]) -> i32 {
     agg.nontrivial_seeds.sort();
     for (_, seed) in agg.nontrivial_seeds.iter().take(2) {
         if let Some(t) = record_seed(prop, tier, *seed, &build_dir, replay_timeout) {
-            let evs: Vec<String> = t.events.iter().map(|e| serde_json::to_string(e).unwrap()).collect();
-            samples.push(json!({"seed": seed, "n_users": t.n_users, "n_encryptors": t.n_encryptors, "events": evs}));
+            // events with the abstract outcome each had when the trace is replayed
+            let tmp = build_dir.join(format!("sample-{prop}-{}.json", std::process::id()));
+            write_trace(&tmp, &t);
+            let outcomes = replay_result(&tmp, replay_timeout).map(|r| r.outcomes).unwrap_or_default();
+            let _ = std::fs::remove_file(&tmp);
+            let evs: Vec<String> = t
+                .events
+                .iter()
+                .enumerate()
+                .map(|(i, e)| format!("{} -> {}", serde_json::to_string(e).unwrap(), outcomes.get(i).cloned().unwrap_or_default()))
+                .collect();
+            samples.push(json!({"seed": seed, "n_users": t.n_users, "n_encryptors": t.n_encryptors, "events_with_outcomes": evs}));
         }
     }
     if samples.is_empty() {
